@@ -723,7 +723,10 @@ class Evaluator:
           return T('elem', it)
         return inner
       if name == 'range':
-        return T('rangevar', *a)
+        # iteration variables of nested abstract loops / comprehensions over the same range are different
+        # variables: tag the inner ones with their nesting depth
+        d = len(self.loop_stack) + getattr(self, 'comp_depth', 0)
+        return T('rangevar', *a) if d == 0 else T('rangevar', *a, T('depth', d))
       if name == 'map' and len(a) >= 2:
         return self.call(a[0], [self.elem_of(x) for x in a[1:]], {}, None, None)
     if it.op == 'range_c':
@@ -1116,11 +1119,15 @@ class Evaluator:
           out.extend(inner)
         return out
       self.assign(g.target, self.elem_of(it), sc)
-      conds = [self.ev(cnd, sc) for cnd in g.ifs]
-      if any(self.decide(c) is False for c in conds):
-        return []
-      conds = [c for c in conds if self.decide(c) is not True]
-      inner = rec(gi + 1)
+      self.comp_depth = getattr(self, 'comp_depth', 0) + 1
+      try:
+        conds = [self.ev(cnd, sc) for cnd in g.ifs]
+        if any(self.decide(c) is False for c in conds):
+          return []
+        conds = [c for c in conds if self.decide(c) is not True]
+        inner = rec(gi + 1)
+      finally:
+        self.comp_depth -= 1
       dom = T('compdom', it, *conds)
       if kind == 'dict':
         return [(T('star', k, dom), v) for k, v in inner]
